@@ -84,12 +84,15 @@ def instances(tier, seed):
         out.append(dict(label=f'dsg_sequential {t} hier_rev k=2 n=3', kind='dsg', type=t, k=2, n=3, placement='hier_rev'))
         out.append(dict(label=f'dsg_sequential {t} mutex k=2 n=2', kind='dsg', type=t, k=2, n=2, placement='mutex'))
         out.append(dict(label=f'dsg_sequential {t} mid_cond k=3 n=4', kind='dsg', type=t, k=3, n=4, placement='mid_cond'))
+        out.append(dict(label=f'dsg_sequential {t} first_cond k=3 n=3', kind='dsg', type=t, k=3, n=3, placement='first_cond'))
+        out.append(dict(label=f'dsg_sequential {t} last_cond k=3 n=3', kind='dsg', type=t, k=3, n=3, placement='last_cond'))
         if tier == 'thorough':
             out.append(dict(label=f'dsg_sequential {t} hier k=3 n=3', kind='dsg', type=t, k=3, n=3, placement='hier'))
             out.append(dict(label=f'dsg_sequential {t} hier_rev k=3 n=3', kind='dsg', type=t, k=3, n=3, placement='hier_rev'))
             out.append(dict(label=f'dsg_sequential {t} mutex k=3 n=3', kind='dsg', type=t, k=3, n=3, placement='mutex'))
         for enc in ('COMPLETE', 'FAST'):
-            for pl, k_, n_ in (('flat', 2, 3), ('flat', 3, 3), ('hier', 2, 3), ('hier_rev', 2, 3), ('mutex', 2, 2), ('mid_cond', 3, 4)):
+            for pl, k_, n_ in (('flat', 2, 3), ('flat', 3, 3), ('hier', 2, 3), ('hier_rev', 2, 3), ('mutex', 2, 2), ('mid_cond', 3, 4),
+                               ('first_cond', 3, 3), ('first_cond_or', 3, 3), ('last_cond', 2, 4), ('last_cond', 3, 4), ('two_groups', 5, 3)):
                 out.append(dict(label=f'encoder_level {t} {enc} {pl} k={k_} n={n_}', kind='enc', type=t, k=k_, n=n_, placement=pl, encoder=enc))
         out.append(dict(label=f'count {t}', kind='count', type=t))
     for k in (2, 3):
@@ -393,6 +396,17 @@ def _parents(k, placement):
     return {}
 
 
+def _is_cond(placement, i, k):
+    return {'mid_cond': 0 < i < k-1, 'first_cond': i == 0, 'last_cond': i == k-1, 'first_cond_or': i == 0}[placement]
+
+
+def _groups(k, placement):
+    """which choices one constraint covers: by default all of them; two_groups: two separate constraints"""
+    if placement == 'two_groups':
+        return [list(range(0, 2)), list(range(2, k))]
+    return [list(range(k))]
+
+
 def _mk_dsg(t, k, n, placement):
     """flat: every constrained choice hangs under a permanent node.
     hier / hier_rev: a choice hangs under option 1 of the previous / next choice (in constraint order), so it is active
@@ -408,12 +422,17 @@ def _mk_dsg(t, k, n, placement):
         opts.append([NamedNode(f'O{i}_{j}') for j in range(n)])
     extra = None
     par = _parents(k, placement)
-    if placement == 'mid_cond':
-        # choices 0 and k-1 permanent, the ones in between hang under option 1 of an extra (unconstrained) choice
+    if placement in ('mid_cond', 'first_cond', 'last_cond', 'first_cond_or'):
+        # some constrained choices hang under option 1 of an extra (unconstrained) choice, the others are permanent:
+        # mid_cond: the ones in between the first and the last; first_cond: the first; last_cond: the last;
+        # first_cond_or: the first under option 1 only, the others under BOTH options of the extra choice
         xo = [NamedNode('X0'), NamedNode('X1')]
         extra = (g.add_selection_choice('A_X', root, xo), xo)
         for i in range(k):
-            g.add_edges([((xo[1] if 0 < i < k-1 else root), parents[i])])
+            if placement == 'first_cond_or' and i > 0:
+                g.add_edges([(xo[0], parents[i]), (xo[1], parents[i])])
+            else:
+                g.add_edges([((xo[1] if _is_cond(placement, i, k) else root), parents[i])])
     elif placement == 'mutex':
         xo = [NamedNode(f'X{j}') for j in range(k)]
         extra = (g.add_selection_choice('A_X', root, xo), xo)
@@ -429,10 +448,11 @@ def _mk_dsg(t, k, n, placement):
     for i in range(k):
         choices.append(g.add_selection_choice(f'C{i}', parents[i], opts[i]))
     g = g.set_start_nodes({root})
-    g = g.constrain_choices(_ctype(t), choices)
-    con = g.get_choice_constraints()[-1]
-    if list(con.nodes) != choices:
-        raise RuntimeError('harness: constraint order differs from construction order')
+    for grp in _groups(k, placement):
+        g = g.constrain_choices(_ctype(t), [choices[i] for i in grp])
+        con = g.get_choice_constraints()[-1]
+        if list(con.nodes) != [choices[i] for i in grp]:
+            raise RuntimeError('harness: constraint order differs from construction order')
     return g, choices, opts, extra
 
 
@@ -446,12 +466,17 @@ def _dsg_oracle(t, k, n, placement):
                 tup[i] = o
                 out.add(tuple(tup))
         return out
-    if placement == 'mid_cond':
+    if placement in ('mid_cond', 'first_cond', 'last_cond', 'first_cond_or'):
         for xsel in (0, 1):
-            rng = [(range(n) if (xsel == 1 or i in (0, k-1)) else [-1]) for i in range(k)]
+            rng = [(range(n) if (xsel == 1 or not _is_cond(placement, i, k)) else [-1]) for i in range(k)]
             for tup in itertools.product(*rng):
                 if pred_py(t, list(tup)):
                     out.add(tuple(tup))
+        return out
+    if placement == 'two_groups':
+        for tup in itertools.product(range(n), repeat=k):
+            if all(pred_py(t, [tup[i] for i in grp]) for grp in _groups(k, placement)):
+                out.add(tuple(tup))
         return out
     par = _parents(k, placement)
     for tup in itertools.product(range(-1, n), repeat=k):
@@ -493,7 +518,7 @@ def _dsg_history(t, k, n, placement, which_sym, pick_sym):
 
 def _run_dsg(inst, res):
     t, k, n, placement = inst['type'], inst['k'], inst['n'], inst['placement']
-    n_steps = k+(1 if placement in ('mutex', 'mid_cond') else 0)
+    n_steps = k+(1 if placement in ('mutex', 'mid_cond', 'first_cond', 'last_cond', 'first_cond_or') else 0)
     which = [sym_int(f'w{i}') for i in range(n_steps)]
     pick = [sym_int(f'p{i}') for i in range(n_steps)]
     pre = []
